@@ -354,8 +354,8 @@ def gen():
     bb = T.body_nodoc(f)
     if not (len(bb) == 1 and isinstance(bb[0], ast.For) and ast.unparse(bb[0].iter) == "self.id_vertices"
             and len(bb[0].body) == 1 and ast.unparse(bb[0].body[0]) ==
-            "self.vertices[%s] = Vec(self.vertices[%s])" % (bb[0].target.id, bb[0].target.id)):
-        T.fail(MD, f, "_prepare_vertices is not the Vec cast of every vertex")
+            "self.vertices[%s] = Vec(self.vertices[%s]).copy()" % (bb[0].target.id, bb[0].target.id)):
+        T.fail(MD, f, "_prepare_vertices is not the Vec cast (followed by .copy(): own buffer, same coordinates) of every vertex")
 
     # --- _prepare_edges
     pe = fdef(tree, "RawMeshData._prepare_edges", MD)
@@ -430,10 +430,14 @@ def gen():
     f = fdef(tree, "RawMeshData._generate_face_corners", MD)
     parts.append(("RawMeshData._generate_face_corners", T.sha(src, f)))
     b = T.body_nodoc(f)
+    if len(b) == 2 and ast.unparse(b[0]) == "nc = len(self.face_corners)" and isinstance(b[1], ast.If):
+        b = [b[0], None, b[1]]    # a guard that does not look at the number of face-vertex incidences (nf unused)
     if not (len(b) == 3 and ast.unparse(b[0]) == "nc = len(self.face_corners)"
-            and ast.unparse(b[1]) == "nf = sum([len(f) for f in self.faces])" and isinstance(b[2], ast.If) and not b[2].orelse):
+            and (b[1] is None or ast.unparse(b[1]) == "nf = sum([len(f) for f in self.faces])")
+            and isinstance(b[2], ast.If) and not b[2].orelse):
         T.fail(MD, f, "_generate_face_corners: unexpected structure")
-    defs.append("Definition fc_regen (nc nf : Z) : bool := %s." % Tr(MD, {"nc": "nc", "nf": "nf"}).b(b[2].test))
+    defs.append("Definition fc_regen (nc nf : Z) : bool := %s."
+                % Tr(MD, {"nc": "nc", "nf": "nf"} if b[1] is not None else {"nc": "nc"}).b(b[2].test))
     ib = b[2].body
     if not (len(ib) == 3 and sorted(ast.unparse(x) for x in ib[:2]) == ["self.face_corners._adj = []", "self.face_corners._elem = []"]
             and isinstance(ib[2], ast.For) and ast.unparse(ib[2].iter) == "enumerate(self.faces)"):
